@@ -3,7 +3,7 @@
    (hypothesis [pickle_roundtrip]; exercised, not proved, by the differential harness).  What is
    proved: the transport touches nothing but the two context names, a reply comes back to the
    future that sent the request, and every future receives the outcome of ITS OWN request. *)
-Require Import QV.C02.Model QV.C02.Proofs QV.C01.Model QV.C01.ProofsBasic.
+Require Import QV.C02.Model QV.C02.Proofs QV.C02.ModelPeers QV.C02.ProofsPeers QV.C01.Model QV.C01.ProofsBasic.
 
 (* one hop over a connection: payload (method name, args, kwargs, lock token, state, result,
    request id), source object and destination object are untouched; only the two context names
@@ -47,6 +47,29 @@ Proof.
   intros fx info ls s r o H Hin Hn. destruct (own_outcome fx info ls s r o H Hin); [assumption|contradiction].
 Qed.
 Print Assumptions C02_equiv.
+
+(* any number of client contexts: after any history of clients connecting and disconnecting, the
+   aliases of the live incoming connections are pairwise distinct, a reply addressed to an alias is
+   written to the connection that was given that alias, and a new connection never gets an alias
+   that is or ever was in use (so it cannot take over another client's replies) *)
+Theorem C02_aliases_distinct : forall ops, NoDup (map fst (table (prun ops))).
+Proof. exact aliases_distinct. Qed.
+Print Assumptions C02_aliases_distinct.
+
+Theorem C02_reply_routed_to_own_connection : forall ops a c,
+  In (a, c) (table (prun ops)) -> route (table (prun ops)) a = Some c.
+Proof. exact route_own. Qed.
+Print Assumptions C02_reply_routed_to_own_connection.
+
+Theorem C02_fresh_alias : forall ops c,
+  Forall (fun a => a < S (counter (prun ops))) (map fst (table (prun ops))) /\
+  In (S (counter (prun ops)), c) (table (prun (ops ++ [PConnect c]))).
+Proof. exact fresh_alias. Qed.
+Print Assumptions C02_fresh_alias.
+
+Example C02_example_peers :
+  table (prun [PConnect 10; PConnect 11; PDisconnect 1; PConnect 12]) = [(2, 11); (3, 12)].
+Proof. vm_compute. reflexivity. Qed.
 
 Example C02_example_hop :
   hop nat (msg nat) (fun m => Some m) (fun b => Some b) 7 9 9 100
